@@ -199,8 +199,20 @@ def mon_c05(cases):
     for ci, c in enumerate(cases):
         ctx = Ctx(c)
         revs = c.get("revs") or []
+        recs = c.get("recs") or []
+        parents = []          # per successful encrypt: (IK id, IK created), (SK id, SK created)
         for i, (op, ob) in enumerate(zip(c["ops"], c["obs"])):
             ctx.feed(op, ob)
+            if op["k"] == "encrypt" and ob["r"] == "enc":
+                parents.append(((ob["pid"], ob["pc"]), tuple(ob.get("ikparent") or ())))
+            # "Records written under the revoked key remain decryptable"
+            if op["k"] == "decrypt" and not op.get("muts") and not op.get("faults"):
+                r = op.get("rec", 0)
+                if r < len(recs) and r < len(parents) and recs[r]["part"] == ob.get("part"):
+                    hit = [rv for rv in revs if rv["at"] <= ob["now"] and (rv["id"], rv["created"]) in parents[r]]
+                    if hit and not (ob["r"] == "dec" and ob.get("n") == recs[r]["payload"]):
+                        yield dict(what="record %d, written under key %s (created %d) that was revoked later, no longer decrypts (result %s)" % (
+                            r, hx(hit[0]["id"]), hit[0]["created"], ob["r"]), case=ci, op=i, finding=None)
             if op["k"] != "encrypt" or ob["r"] != "enc" or op.get("faults"):
                 continue
             sid = op.get("s", 0)
